@@ -537,6 +537,9 @@ func (db *MultiBucketBackend) deleteObjectLocked(bucketName, objectName string) 
 	if err := db.bucketFs.Remove(filepath.FromSlash(fullPath)); err != nil && !os.IsNotExist(err) {
 		return err
 	}
+	if err := pruneEmptyDirs(db.bucketFs, bucketName, fullPath); err != nil {
+		return err
+	}
 
 	if err := db.metaStore.deleteMeta(db.metaStore.metaPath(bucketName, objectName)); err != nil {
 		return err
